@@ -21,7 +21,7 @@ def main():
     qe.report_common(R, res, "C04")
     for cid, pid, gi in res["c04u"]:
         h = res["byid"][cid]
-        if not (h["kind"] in ("cluster-random", "cluster-timely", "replay")) or h.get("cmpmix"):
+        if not (h["kind"] in ("cluster-random", "cluster-timely")) or h.get("cmpmix"):
             continue
         R.violation("unjust:honest-message", "process %d of history %d (%s, n=%d) logged an honest broadcast as unjust at global step %d: %s" % (
             pid, cid, h["kind"], h["nodes"], gi, h["trace"][gi][:300]), qe.replay_obj(h, gi))
